@@ -186,7 +186,7 @@ def run(ctx):
     import vmcases
     rt = []
     accepted = [(s_, repl) for (s_, repl), r in zip(progs, res) if r["accept"] and repl]
-    for (s_, repl) in (accepted if not quick else rng.sample(accepted, min(len(accepted), 160))):
+    for (s_, repl) in rng.sample(accepted, min(len(accepted), 160 if quick else 2000)):
         m = program_rt(s_, repl, rng)
         text, _ = nslgen.render(m, "canonical", rng)
         calls = [{"fn": "f", "args": {"a": a}, "globals": {}, "read_globals": []} for a in (0, 1, 50)]
